@@ -162,11 +162,12 @@ def network_checks(rep, rng):
     for order in (["A", "B", "A"], ["A", "A"], ["B", "A", "C", "B"]):
         cases.append(("duplicate-species", lambda order=order: RDNetwork(species=[Species(l) for l in order], reactions=[])))
         cases.append(("duplicate-species(dict)", lambda order=order: rdnetwork_from_dict({"species": spd(order), "reactions": []})))
-    for labels in (["r", "r"], ["r", None, "r"], ["p", "q", "p"], ["q", "p", "p"]):
-        mk = lambda labels=labels: [Reaction("A -> B", **({"label": l} if l else {})) for l in labels]
+    # (the empty string is a label like any other: only None means "no label")
+    for labels in (["r", "r"], ["r", None, "r"], ["p", "q", "p"], ["q", "p", "p"], ["", ""], ["", None, "x", ""], ["0", "0"]):
+        mk = lambda labels=labels: [Reaction("A -> B", **({"label": l} if l is not None else {})) for l in labels]
         cases.append(("duplicate-reaction-label", lambda mk=mk: RDNetwork(species=sp, reactions=mk())))
         cases.append(("duplicate-reaction-label(dict)", lambda labels=labels: rdnetwork_from_dict(
-            {"species": spd(["A", "B"]), "reactions": [dict({"eq": "A -> B"}, **({"label": l} if l else {})) for l in labels]})))
+            {"species": spd(["A", "B"]), "reactions": [dict({"eq": "A -> B"}, **({"label": l} if l is not None else {})) for l in labels]})))
     for name, fn in cases:
         rep.case(["network", name])
         try:
@@ -175,6 +176,7 @@ def network_checks(rep, rng):
         except Exception:
             pass
     ok = [lambda: RDNetwork(species=sp, reactions=[Reaction("A -> B", label="r1"), Reaction("B -> A", label="r2"), Reaction("A -> B")]),
+          lambda: RDNetwork(species=sp, reactions=[Reaction("A -> B", label=""), Reaction("B -> A"), Reaction("A -> B"), Reaction("B -> A", label="0")]),
           lambda: RDNetwork(species=sp, reactions=[Reaction(" -> A"), Reaction("B -> ")])]
     for fn in ok:
         try:
